@@ -304,14 +304,84 @@ Proof.
   unfold g_set_avail. rewrite map_map. apply map_ext. intros x. destruct (key_eqb (s_name x) s); reflexivity.
 Qed.
 
-Theorem grun_spec p : forall ops subs, NoDup (map s_name subs) -> gspec p (pj subs) ops (grun p subs ops) = true.
+(* Reload / BackendReload commute with the credit-free view *)
+Lemma pj_reload subs conf : pj (g_reload subs conf) = p_reload (pj subs) conf.
 Proof.
-  induction ops as [|o r IH]; intros subs Hnd; [reflexivity|]. destruct o as [retry h|s id a|s id n]; simpl.
+  unfold g_reload, p_reload. destruct (pos_total conf =? 0); [reflexivity|]. unfold pj at 1. rewrite map_app. f_equal.
+  - induction subs as [|s r IH]; [reflexivity|]. simpl. rewrite map_app, IH. f_equal.
+    unfold s_name. destruct (klookup (fst (fst s)) conf); reflexivity.
+  - rewrite names_pj, map_map. reflexivity.
+Qed.
+Lemma pj_wupdate bs conf : map pj_b (wupdate bs conf) = pupdate (map pj_b bs) conf.
+Proof.
+  unfold wupdate, pupdate. rewrite map_app. f_equal.
+  - induction bs as [|b r IH]; [reflexivity|]. simpl. rewrite map_app, IH. f_equal.
+    destruct b as [[[[i w] c] a] n]. unfold wb_id. simpl. destruct (lookup i conf); reflexivity.
+  - rewrite !map_map. assert (E : map (fun x : wb => fst (fst (pj_b x))) bs = map wb_id bs) by (apply map_ext; intros [[[[i w] c] a] n]; reflexivity).
+    rewrite E. apply map_ext. intros [i w]. reflexivity.
+Qed.
+Lemma pj_backends subs s conf : pj (g_backends subs s conf) = p_backends (pj subs) s conf.
+Proof.
+  unfold pj, g_backends, p_backends. rewrite !map_map. apply map_ext. intros x. unfold pj_s at 2. simpl. unfold s_name.
+  destruct (key_eqb (fst (fst x)) s); [|reflexivity]. unfold pj_s. simpl. rewrite pj_wupdate. reflexivity.
+Qed.
+Lemma names_backends subs s conf : map s_name (g_backends subs s conf) = map s_name subs.
+Proof. unfold g_backends. rewrite map_map. apply map_ext. intros x. destruct (key_eqb (s_name x) s); reflexivity. Qed.
+
+Lemma kept_names_incl conf : forall (subs : list gsub) n,
+  In n (map s_name (flat_map (fun s => match klookup (s_name s) conf with Some w => [(s_name s, w, s_bs s)] | None => [] end) subs)) ->
+  In n (map s_name subs).
+Proof.
+  induction subs as [|s r IH]; intros n H; [exact H|]. simpl in H. rewrite map_app in H. apply in_app_or in H. destruct H as [H|H].
+  - destruct (klookup (s_name s) conf); [|contradiction]. destruct H as [H|[]]. left. exact H.
+  - right. apply IH. exact H.
+Qed.
+Lemma nodup_kept conf : forall (subs : list gsub) (tl : list key),
+  NoDup (map s_name subs) -> NoDup tl -> (forall n, In n tl -> ~ In n (map s_name subs)) ->
+  NoDup (map s_name (flat_map (fun s => match klookup (s_name s) conf with Some w => [(s_name s, w, s_bs s)] | None => [] end) subs) ++ tl).
+Proof.
+  induction subs as [|s r IH]; intros tl Hnd Htl Hdis; [exact Htl|]. inversion Hnd as [|? ? Hn Hnd']; subst.
+  assert (Hr : NoDup (map s_name (flat_map (fun s0 => match klookup (s_name s0) conf with Some w => [(s_name s0, w, s_bs s0)] | None => [] end) r) ++ tl)).
+  { apply IH; [exact Hnd'|exact Htl|]. intros n Hin Hc. apply (Hdis n Hin). right. exact Hc. }
+  simpl. rewrite map_app. destruct (klookup (s_name s) conf); [|exact Hr]. simpl. constructor; [|exact Hr].
+  intro Hin. apply in_app_or in Hin. destruct Hin as [Hin|Hin].
+  - apply Hn. apply (kept_names_incl conf r _ Hin).
+  - apply (Hdis _ Hin). left. reflexivity.
+Qed.
+Lemma nodup_filter_keys (conf : list (key * Z)) f : NoDup (map fst conf) -> NoDup (map fst (filter f conf)).
+Proof.
+  induction conf as [|e r IH]; simpl; intros H; [constructor|]. inversion H; subst.
+  destruct (f e); [|apply IH; assumption]. simpl. constructor; [|apply IH; assumption].
+  intro Hin. apply H2. apply in_map_iff in Hin. destruct Hin as [x [E Hx]]. apply filter_In in Hx.
+  apply in_map_iff. exists x. tauto.
+Qed.
+Lemma names_reload_nodup subs conf : NoDup (map s_name subs) -> NoDup (map fst conf) -> NoDup (map s_name (g_reload subs conf)).
+Proof.
+  intros H1 H2. unfold g_reload. destruct (pos_total conf =? 0); [exact H1|]. rewrite map_app.
+  rewrite (map_map (fun e : key * Z => (fst e, snd e, @nil wb)) s_name).
+  apply nodup_kept; [exact H1|apply nodup_filter_keys; exact H2|].
+  intros n Hin Hc. apply in_map_iff in Hin. destruct Hin as [e [En He]]. apply filter_In in He. destruct He as [_ Hf].
+  simpl in En. subst n. apply negb_true_iff in Hf.
+  assert (existsb (key_eqb (fst e)) (map s_name subs) = true); [|congruence].
+  apply existsb_exists. exists (fst e). split; [exact Hc|apply key_eqb_eq; reflexivity].
+Qed.
+
+(* every Reload lists each sub-cluster once (the gslb conf is a map) *)
+Definition gop_ok (o : gop) : bool :=
+  match o with GReload conf => distinct_keys (map fst conf) | _ => true end.
+
+Theorem grun_spec p : forall ops subs, NoDup (map s_name subs) -> forallb gop_ok ops = true ->
+  gspec p (pj subs) ops (grun p subs ops) = true.
+Proof.
+  induction ops as [|o r IH]; intros subs Hnd Hok; [reflexivity|]. simpl in Hok. apply andb_true_iff in Hok. destruct Hok as [Ho Hok].
+  destruct o as [retry h|s id a|s id n|conf|s conf]; simpl.
   - destruct (balance_spec p subs retry h 0 Hnd) as [H1 H2].
     destruct (balance p subs retry h 0) as [o subs'] eqn:Eb. simpl in *. rewrite H1. simpl. rewrite <- H2.
-    apply IH. rewrite (pj_names_eq _ _ H2). exact Hnd.
-  - rewrite <- pj_set_avail. apply IH. rewrite names_set_avail. exact Hnd.
-  - rewrite <- (pj_set_conn subs s id n). apply IH. rewrite (pj_names_eq _ _ (pj_set_conn subs s id n)). exact Hnd.
+    apply IH; [|exact Hok]. rewrite (pj_names_eq _ _ H2). exact Hnd.
+  - rewrite <- pj_set_avail. apply IH; [|exact Hok]. rewrite names_set_avail. exact Hnd.
+  - rewrite <- (pj_set_conn subs s id n). apply IH; [|exact Hok]. rewrite (pj_names_eq _ _ (pj_set_conn subs s id n)). exact Hnd.
+  - rewrite <- pj_reload. apply IH; [|exact Hok]. apply names_reload_nodup; [exact Hnd|]. apply distinct_keys_NoDup. exact Ho.
+  - rewrite <- pj_backends. apply IH; [|exact Hok]. rewrite names_backends. exact Hnd.
 Qed.
 
 (* ---------------------------------------------------------------- readable corollary: the returned target *)
@@ -391,10 +461,11 @@ Proof. unfold g_init. rewrite map_map. reflexivity. Qed.
 
 Theorem prop_of_model_C03 : forall i p conf ops,
   dec_in i = Some (p, conf, ops) -> NoDup (map (fun s : key * Z * list (Z * Z) => fst (fst s)) conf) ->
+  forallb gop_ok ops = true ->
   prop_C03 i (run_C03 i) = true.
 Proof.
-  intros i p conf ops Hd Hnd. unfold prop_C03, run_C03. rewrite Hd, dec_out_enc, <- pj_init.
-  apply grun_spec. rewrite names_init. exact Hnd.
+  intros i p conf ops Hd Hnd Hok. unfold prop_C03, run_C03. rewrite Hd, dec_out_enc, <- pj_init.
+  apply grun_spec; [|exact Hok]. rewrite names_init. exact Hnd.
 Qed.
 
 (* ---------------------------------------------------------------- slow start, WlcSmooth with all connection counts 0 *)
@@ -424,18 +495,21 @@ Proof. destruct wlc; [exact wlc_bal_ok|exact smooth_bal_ok]. Qed.
 (* ---------------------------------------------------------------- central statement with an executable guard *)
 Definition wf_C03 (i : val) : bool :=
   match dec_in i with
-  | Some (_, conf, _) => distinct_keys (map (fun s : key * Z * list (Z * Z) => fst (fst s)) conf)
+  | Some (_, conf, ops) => distinct_keys (map (fun s : key * Z * list (Z * Z) => fst (fst s)) conf) && forallb gop_ok ops
   | None => false
   end.
 Theorem central_C03 : forall i, wf_C03 i = true -> kf_C03 i = 0 -> prop_C03 i (run_C03 i) = true.
 Proof.
   intros i H _. unfold wf_C03 in H. destruct (dec_in i) as [[[p conf] ops]|] eqn:E; [|discriminate].
-  apply (prop_of_model_C03 i p conf ops E). apply distinct_keys_NoDup. exact H.
+  apply andb_true_iff in H. destruct H as [H1 H2].
+  apply (prop_of_model_C03 i p conf ops E); [apply distinct_keys_NoDup; exact H1|exact H2].
 Qed.
 Definition sample_C03 : val :=
   VL [VL [VZ 1; VZ 1; VZ 1];
       VL [VL [VB [98;106]; VZ 2; VL [VL [VZ 0; VZ 1]; VL [VZ 1; VZ 2]]]; VL [VB [103;122]; VZ 0; VL [VL [VZ 3; VZ 1]]]];
       VL [VL [VZ 2; VB [98;106]; VZ 0; VZ 3]; VL [VZ 1; VB [98;106]; VZ 1; VZ 0]; VL [VZ 0; VZ 0; VZ 77; VB [1;2;3;4]];
-          VL [VZ 0; VZ 2; VZ 78; VB [1;2;3;5]]]].
+          VL [VZ 0; VZ 2; VZ 78; VB [1;2;3;5]];
+          VL [VZ 3; VL [VL [VB [98;106]; VZ 0]; VL [VB [97]; VZ 5]; VL [VB [103;122]; VZ 0]]];
+          VL [VZ 4; VB [97]; VL [VL [VZ 0; VZ 1]]]; VL [VZ 0; VZ 0; VZ 79; VB [1;2;3;6]]]].
 Lemma sample_C03_wf : wf_C03 sample_C03 = true.
 Proof. reflexivity. Qed.
